@@ -496,3 +496,77 @@ func genAllTags(run *vlib.Run, tier string) {
 		emit(s, []string{langs[a], langs[a+1], langs[a+2]})
 	}
 }
+
+// ---- sl-plain: script lists keyed by plain BCP 47 tags (oracle only)
+//
+//	!sl-plain xTAG
+//
+// A ScriptListInfo may be keyed by a tag without the private-use part the
+// reader produces (language.MustParse("bn-Beng"), language.German).  Several
+// OpenType tags can stand for such a tag; whatever the encoder chooses, it must
+// choose the same on every call: the bytes of one value are a function of the
+// value ("writing the same font twice always gives the same bytes").
+
+func slPlainCase(tag string) (impl, fail string) {
+	t, err := language.Parse(tag)
+	if err != nil {
+		return "skip", ""
+	}
+	info := gtab.ScriptListInfo{t: &gtab.Features{Required: 0xFFFF, Optional: []gtab.FeatureIndex{0}}}
+	var first []byte
+	for i := 0; i < 12; i++ {
+		var enc []byte
+		if pp, msg := guard(func() { enc = gtab.VerifC08ScriptListEncode(info) }); pp {
+			return "panic", "ScriptListInfo.encode panics on the key " + tag + ": " + msg
+		}
+		if i == 0 {
+			first = enc
+		} else if string(enc) != string(first) {
+			return "differs", fmt.Sprintf("the script list {%s: ...} is encoded as %x on call 1 and as %x on call %d", tag, first, enc, i+1)
+		}
+	}
+	return fmt.Sprintf("(ok %d)", len(first)), ""
+}
+
+func genPlainTags(run *vlib.Run, tier string) {
+	sv, lv := map[string]bool{}, map[string]bool{}
+	for _, v := range gtab.VerifC14ScriptTable() {
+		sv[v] = true
+	}
+	for _, v := range gtab.VerifC14LangTable() {
+		lv[v] = true
+	}
+	var scripts, langs []string
+	for v := range sv {
+		scripts = append(scripts, v)
+	}
+	for v := range lv {
+		langs = append(langs, v)
+	}
+	sort.Strings(scripts)
+	sort.Strings(langs)
+	emit := func(tag string) {
+		line := vlib.Line(vlib.Atom("!sl-plain"), vlib.Hex([]byte(tag)))
+		impl, fail := slPlainCase(tag)
+		if impl == "skip" {
+			return
+		}
+		idx := run.Add(line, impl, true, "sl-plain", "oracle-only")
+		if fail != "" {
+			run.Fail(idx, line, fail, "c08-scriptlist-not-a-function")
+		}
+	}
+	for _, s := range scripts {
+		emit("und-" + s)
+	}
+	some := []string{"Latn", "Beng", "Deva", "Mlym"}
+	if tier == "thorough" {
+		some = scripts
+	}
+	for _, l := range langs {
+		emit(l)
+		for _, s := range some {
+			emit(l + "-" + s)
+		}
+	}
+}
